@@ -86,6 +86,46 @@ def h_varying(a, inst):
     return same_events(rec_tuples(o2.messages), rec_tuples(o3.messages))
 
 
+# ------------------------------------------------------------------ operators given an *absolute* time, subscribed at two instants
+ABS_OPS = {
+    "delay": lambda t: ops.delay(t),
+    "delay_subscription": lambda t: ops.delay_subscription(t),
+    "skip_until_with_time": lambda t: ops.skip_until_with_time(t),
+    "take_until_with_time": lambda t: ops.take_until_with_time(t),
+    "timeout": lambda t: ops.timeout(t),
+}
+
+
+@harness(instances=lambda tier: [{"op": o} for o in ABS_OPS], d=I(0, 14), s2=I(1, 12), g=I(0, 2), timeout=(120, 600), stock=False)
+def h_absolute(a, inst):
+    """an operator built once with an absolute (datetime) time D and subscribed at 200 and again at 200 + s2, next to a freshly
+    built operator subscribed at the same second instant: the reused one must behave exactly like the fresh one (an absolute time
+    is resolved against each subscription's own clock reading, never against the first one's).  Real datetimes: stock TestScheduler,
+    all numbers realised by branching"""
+    from engine.gate import concrete, untraced
+    d, s2, g = concrete(a.d, 0, 14), concrete(a.s2, 1, 12), concrete(a.g, 0, 2)
+    with untraced():  # everything below is concrete: no symbolic tracing needed
+        ok = _absolute_run(inst["op"], d, s2, g)
+    cover("both")
+    return ok
+
+
+def _absolute_run(op, d, s2, g):
+    from reactivex.testing import ReactiveTest, TestScheduler
+    inst = {"op": op}
+    sch = TestScheduler()
+    D = sch.to_datetime(205 + d)
+    msgs = [ReactiveTest.on_next(1 + g, 1), ReactiveTest.on_next(4 + g, 2), ReactiveTest.on_completed(8 + g)]
+    shared = sch.create_cold_observable(msgs).pipe(ABS_OPS[inst["op"]](D))
+    fresh = sch.create_cold_observable(msgs).pipe(ABS_OPS[inst["op"]](D))
+    o1, o2, o3 = sch.create_observer(), sch.create_observer(), sch.create_observer()
+    sch.schedule_absolute(200, lambda s, st: shared.subscribe(o1, scheduler=s))
+    sch.schedule_absolute(200 + s2, lambda s, st: shared.subscribe(o2, scheduler=s))
+    sch.schedule_absolute(200 + s2, lambda s, st: fresh.subscribe(o3, scheduler=s))
+    sch.advance_to(300)
+    return same_events(rec_tuples(o2.messages), rec_tuples(o3.messages))
+
+
 # ------------------------------------------------------------------ creation functions that combine / build sources
 def _cinst(tier):
     return [{"fn": f} for f in CREATORS]
